@@ -80,7 +80,7 @@ Cat(ss) == FlattenSeq(ss)
 AbsInit(cfg) ==
   [cfg |-> cfg, sp |-> EmptyFn, rt |-> EmptyFn, ctx |-> EmptyFn, sc |-> EmptyFn, ls |-> EmptyFn,
    att |-> EmptyFn, exp |-> {}, opt |-> {}, dl |-> {}, never |-> {}, claims |-> {}, hints |-> {}, cyc |-> {},
-   fl |-> EmptyFn, cmds |-> EmptyFn, cut |-> {}, qs |-> {}, pk |-> EmptyFn, exc |-> {}, got |-> <<>>, gotrecs |-> <<>>, tm |-> EmptyFn, ad |-> EmptyFn, polled |-> EmptyFn, ovl |-> FALSE, viol |-> <<>>]
+   fl |-> EmptyFn, cmds |-> EmptyFn, cut |-> {}, qs |-> {}, pk |-> EmptyFn, exc |-> {}, got |-> <<>>, gotrecs |-> <<>>, tm |-> EmptyFn, ad |-> EmptyFn, polled |-> EmptyFn, ovl |-> FALSE, free |-> {}, viol |-> <<>>]
 
 Recording(a) == a.cfg.enabled /\ a.cfg.ready
 
@@ -254,12 +254,18 @@ Claim(a, p, n, id) ==
        ELSE [a EXCEPT !.claims = @ \cup {<<n, id>>}]
 Hint(a, n, id) == IF id = None THEN a ELSE [a EXCEPT !.hints = {c \in @ : c[1] # n} \cup {<<n, id>>}]
 
-CheckCtx(a, p, want, got) ==   \* want: [some, tr, n, smp]   got: [some, tr, id, smp]
+\* ps: the properties the answer belongs to (a local-context query: C10 and C11; a wrong
+\* sampling flag is also C05's business)
+RECURSIVE ViolAll(_, _, _, _)
+ViolAll(a, ps, w, d) == IF ps = <<>> THEN a ELSE ViolAll(Viol(a, Head(ps), w, d), Tail(ps), w, d)
+CheckCtxs(a, ps, want, got) ==   \* want: [some, tr, n, smp]   got: [some, tr, id, smp]
   IF ~want.some
-  THEN IF ~got.some THEN a ELSE Viol(a, p, "ctx-should-be-none", got)
-  ELSE IF ~got.some THEN Viol(a, p, "ctx-missing", want)
-       ELSE LET a1 == IF got.tr # want.tr \/ got.smp # want.smp THEN Viol(a, p, "ctx-wrong", <<want, got>>) ELSE a
-            IN Claim(a1, p, want.n, got.id)
+  THEN IF ~got.some THEN a ELSE ViolAll(a, ps, "ctx-should-be-none", got)
+  ELSE IF ~got.some THEN ViolAll(a, ps, "ctx-missing", want)
+       ELSE LET a1 == IF got.tr # want.tr THEN ViolAll(a, ps, "ctx-wrong-trace", <<want, got>>) ELSE a
+                a2 == IF got.smp # want.smp THEN ViolAll(a1, ps \o <<"C05">>, "ctx-wrong-sampled-flag", <<want, got>>) ELSE a1
+            IN Claim(a2, Head(ps), want.n, got.id)
+CheckCtx(a, p, want, got) == CheckCtxs(a, <<p>>, want, got)
 
 CallRoot(a, e) ==
   LET rec == Recording(a) IN
@@ -491,7 +497,7 @@ RetFlush(a, e) ==
 \* local context must be what the abstract scopes say (C10), with the right identifiers (C11)
 \* on a thread that polls adapters the local context is the adapters' business (C13 / C14)
 RetCtxLocal(a, e) ==
-  CheckCtx(a, IF Has(a.polled, e.t) THEN (IF a.polled[e.t] \in {"fut", "eop"} THEN "C13" ELSE "C14") ELSE "C10", LocalCtx(a, e.t), e.ctx)
+  CheckCtxs(a, <<IF Has(a.polled, e.t) THEN (IF a.polled[e.t] \in {"fut", "eop"} THEN "C13" ELSE "C14") ELSE "C10", "C11">>, LocalCtx(a, e.t), e.ctx)
 RetCtxSpan(a, e) == CheckCtx(a, "C11", SpanCtx(a, e.h), e.ctx)
 RetLEnter(a, e) == IF LocalLive(a, e.t, e.l) THEN Hint(a, e.l, F(e, "id")) ELSE a
 RetSpanId(a, e) == IF Has(a.sp, e.h) /\ ~a.sp[e.h].noop /\ a.sp[e.h].lin # <<>> THEN Hint(a, e.h, F(e, "id")) ELSE a
@@ -544,7 +550,8 @@ ParentOpen(a, e) == e.par # None /\ IdOf(a, e.par) = None
 \* one record of a batch
 TakeRecord(a, rec) ==
   LET C == Cands(a, rec) IN
-  IF C = {}
+  IF rec.name \in a.free THEN a
+  ELSE IF C = {}
   THEN \* nothing is owed under that name in that trace: say why
        IF \E x \in a.never : x.n = rec.name /\ x.tr = rec.trace
        THEN LET x == CHOOSE x \in a.never : x.n = rec.name /\ x.tr = rec.trace IN
@@ -733,8 +740,19 @@ Ret(a, e) ==
               [] OTHER           -> a0 IN
   Settle(a1, e.t, Refused(e))
 
+\* calls made from a thread-local destructor after fastrace's own thread-locals are gone: they must
+\* return (C07); what they do or do not record is not constrained
+TlsRet(a, e) ==
+  IF Has(e, "panic")
+  THEN ViolK(a, "C07", "panic-in-thread-local-destructor", <<e.op, e.panic>>, IF e.op = "ctxrandom" THEN "tls-random" ELSE None)
+  ELSE IF Has(e, "cid") THEN [a EXCEPT !.cfg.foreign = @ \cup {e.cid}]     \* nor is what the collector keeps for them
+  ELSE a
+
 AbsStep(a, e) ==
-  CASE e.ev = "call"      -> Call(a, e)
+  CASE e.ev \in {"call", "ret"} /\ Has(e, "tls") ->
+         \* spans such calls create may or may not be recorded: their records are not constrained
+         IF e.ev = "ret" THEN TlsRet(a, e) ELSE [a EXCEPT !.free = @ \cup ({F(e, "h"), F(e, "l")} \ {None})]
+    [] e.ev = "call"      -> Call(a, e)
     [] e.ev = "ret"       -> Ret(a, e)
     [] e.ev = "report"    -> Report(a, e)
     [] e.ev = "cycbegin"  -> CycBegin(a, e)
